@@ -2,7 +2,10 @@
 
 package bkl
 
-import "fmt"
+import (
+	"fmt"
+	"strings"
+)
 
 func init() {
 	vRegister("HarnessC13_interp", HarnessC13_interp)
@@ -178,8 +181,21 @@ func HarnessC13_env() {
 	}
 	env := ndStr(n, "print")
 	if c13EnvRegion(env) {
+		// inside the region of known finding C13-K1 the value is not passed
+		// through; what the finding describes is: rejected by output
+		// validation, or emitted with "$$" collapsed to "$". Anything else
+		// (for instance the value being EVALUATED) is not the known finding.
 		vCover("known.C13-K1")
-		vAssume(false)
+		vSetEnv("FOO=" + env)
+		got, err := c06Eval(map[string]any{"v": "$env:FOO"})
+		if err == nil {
+			vAssert("C13.env.region.one", len(got) == 1)
+			v := got[0].(map[string]any)["v"]
+			vObserve("env", env)
+			vObserve("v", v)
+			vAssert("C13.env.region", vOr(vEq(v, env), vEq(v, strings.ReplaceAll(env, "$$", "$"))))
+		}
+		return
 	}
 	vSetEnv("FOO=" + env, "BAR=true", "NUM=12")
 	doc := map[string]any{"v": "$env:FOO", "b": "$env:BAR", "n": "$env:NUM", "$env:NUM": 1}
